@@ -1101,8 +1101,11 @@ func isHelperOf(top, callee *ssa.Function) bool {
 		return false
 	}
 	obj := callee.Object()
-	if obj == nil || obj.Exported() {
+	if obj == nil {
 		return false
+	}
+	if obj.Exported() && knownOnPinnedTree(callee) {
+		return false // part of the API as pinned; an exported function a refactoring introduced is a helper like any other
 	}
 	return fnTypesPkg(callee) == fnTypesPkg(top)
 }
@@ -1119,6 +1122,14 @@ func deepStoresTo(fn *ssa.Function, f *types.Var) []deepStore {
 			if st, ok := in.(*ssa.Store); ok {
 				if fv, _ := fieldAddrOf(st.Addr); fv == f {
 					out = append(out, deepStore{Field: f, Store: st, Site: s, subst: subst})
+				}
+				// a store through a pointer parameter that the call binds to the address of the field (setFlag(&p.loop, v))
+				if prm, isPrm := st.Addr.(*ssa.Parameter); isPrm {
+					if arg, bound := subst[prm]; bound {
+						if fv, _ := fieldAddrOf(stripConv(arg)); fv == f {
+							out = append(out, deepStore{Field: f, Store: st, Site: s, subst: subst})
+						}
+					}
 				}
 				return
 			}
